@@ -294,6 +294,10 @@ def eval_tree(ctx, case):
     cfg = dict(root_cfg, packages={MOD + "/" + p: {"config": c} for p, c in written.items()})
     files[".mockery.yml"] = json.dumps(cfg)
     root_cfg = {k: v for k, v in root_cfg.items() if k != "recursive"}   # (the model below works on the per-package form)
+    if case.get("env_root"):
+        # top-level selection settings given through the environment instead of the file (string values that read like booleans stay strings)
+        env_extra = dict(env_extra or {}, **{"MOCKERY_" + k.upper().replace("-", "_"): v for k, v in case["env_root"].items()})
+        root_cfg = dict(root_cfg, **case["env_root"])
     root = core.scratch_module(ctx, files)
     r = core.run_mockery(ctx, root, [], timeout=300, env_extra=env_extra)
     if r.timed_out:
@@ -461,6 +465,13 @@ def fixed_tree_cases():
                   "pkcfg": {"t": {"recursive": True, "all": True, "structname": "R0_{{.InterfaceName}}"}}})
     cases.append({"kind": "tree", "i": 9301, "dirs": cdirs, "excl_root": None, "root_recursive": False,
                   "pkcfg": {"t/native": {"include-interface-regex": "^Svc", "structname": "E0_{{.InterfaceName}}"}, "t/plain": {"all": True, "structname": "E1_{{.InterfaceName}}"}}})
+    # fixed trees: the include / exclude expressions come from the environment and read like booleans (T selects SvcTwo, f excludes nothing)
+    cases.append({"kind": "tree", "i": 9200, "dirs": {"t": "go", "t/a": "go", "u": "go"}, "excl_root": None, "root_recursive": False,
+                  "env_root": {"include-interface-regex": "T", "exclude-interface-regex": "f"},
+                  "pkcfg": {"t": {"recursive": True, "structname": "R0_{{.InterfaceName}}"}, "u": {"structname": "E0_{{.InterfaceName}}"}}})
+    cases.append({"kind": "tree", "i": 9201, "dirs": {"t": "go", "t/a": "go", "u": "go"}, "excl_root": None, "root_recursive": False,
+                  "env_root": {"include-interface-regex": "t"},
+                  "pkcfg": {"t": {"recursive": True, "structname": "R0_{{.InterfaceName}}"}, "u": {"structname": "E0_{{.InterfaceName}}", "exclude-interface-regex": "1"}}})
     # fixed trees: `recursive: true` made only at the top level (config file / MOCKERY_RECURSIVE), inherited by one package and refused by another
     gdirs = {"t": "go", "t/a": "go", "t/a/b": "go", "t/c": "testonly", "u": "go", "u/x": "go", "u/x/y": "go"}
     for j, mode in enumerate(("file", "env")):
